@@ -96,11 +96,13 @@ where
             let cg = map.get(&line).unwrap_or(&empty);
             let indent = self.make_indent();
             for c in cg.iter() {
-                let first_char = c.fragment.chars().nth(0).unwrap_or('\0');
+                // Decide on the text we print: a blank comment stays a bare `//`.
+                let text = c.fragment.trim_end();
+                let first_char = text.chars().nth(0).unwrap_or(' ');
                 if !first_char.is_whitespace() {
-                    writeln!(self.w, "{}// {}", indent, c.fragment.trim_end())?;
+                    writeln!(self.w, "{}// {}", indent, text)?;
                 } else {
-                    writeln!(self.w, "{}//{}", indent, c.fragment.trim_end())?;
+                    writeln!(self.w, "{}//{}", indent, text)?;
                 }
             }
             self.comment_group_lines.pop();
